@@ -31,6 +31,17 @@ type Eval struct {
 	cells *frameCells
 	inOld bool
 	pkg   *types.Package
+	loop  *loopInfo
+}
+
+// loopOwnsAlloc: the rangeindex alloc belongs to the loop whose header stores to it.
+func (ev *Eval) loopOwnsAlloc(a *ssa.Alloc) bool {
+	for _, ins := range ev.loop.header.Instrs {
+		if st, ok := ins.(*ssa.Store); ok && st.Addr == ssa.Value(a) {
+			return true
+		}
+	}
+	return false
 }
 
 var specInt = types.Typ[types.UntypedInt]
@@ -287,7 +298,7 @@ func (ev *Eval) quant(e *Expr) *Value {
 	}
 	// bounded-range typing of integer bound vars is not assumed: spec ints are mathematical
 	if e.Op == "forall" {
-		return scalar(specBool, Forall(vars, body))
+		return scalar(specBool, Forall(vars, body, inferPatterns(vars, body)...))
 	}
 	return scalar(specBool, Exists(vars, body))
 }
@@ -345,6 +356,17 @@ func (ev *Eval) ident(name string) *Value {
 			if v, ok := ev.v.entryArgs[name]; ok && ev.fn == ev.v.top {
 				return v
 			}
+		}
+		if name == "rangeidx" && ev.loop != nil {
+			// the hidden index variable of the go/ssa rangeindex loop being cut (-1 before the first iteration)
+			for a, c := range ev.cells.m {
+				if a.Comment == "rangeindex" && ev.loop.modCells[a] && a.Block() != nil && ev.loopOwnsAlloc(a) {
+					if val, ok := ev.st.cells[c]; ok {
+						return &Value{T: specInt, L: val.L}
+					}
+				}
+			}
+			ev.fail("rangeidx used in a loop that is not a range-over-slice loop")
 		}
 		if c := ev.localCell(name); c != nil {
 			st := ev.state()
@@ -566,7 +588,7 @@ func (ev *Eval) index(e *Expr) *Value {
 	switch u := under(x.T).(type) {
 	case *types.Slice:
 		i := ev.intExpr(e.Args[1])
-		return ev.state().loadElem(x.sArr(), Add(x.sOff(), i), u.Elem())
+		return ev.state().loadElem(x.sArr(), Elt(x.sOff(), i), u.Elem())
 	case *types.Map:
 		k := ev.coerce(ev.eval(e.Args[1]), u.Key())
 		return ev.v.mapGet(ev.state(), x, k)
@@ -778,4 +800,111 @@ func (ev *Eval) havocTarget(e *Expr) {
 	default:
 		ev.fail("modifies %q: unsupported target", e.Text)
 	}
+}
+
+
+// inferPatterns picks E-matching triggers: select/app terms mentioning bound variables, free of boolean structure.
+func inferPatterns(vars []*Term, body *Term) [][]*Term {
+	isVar := map[int]bool{}
+	for _, v := range vars {
+		isVar[v.id] = true
+	}
+	varsOf := func(t *Term) map[int]bool {
+		out := map[int]bool{}
+		var rec func(t *Term)
+		seen := map[int]bool{}
+		rec = func(t *Term) {
+			if seen[t.id] || !t.bound {
+				return
+			}
+			seen[t.id] = true
+			if t.op == "var" && isVar[t.id] {
+				out[t.id] = true
+			}
+			for _, a := range t.args {
+				rec(a)
+			}
+		}
+		rec(t)
+		return out
+	}
+	okPattern := func(t *Term) bool {
+		ok := true
+		var rec func(t *Term)
+		rec = func(t *Term) {
+			switch t.op {
+			case "select", "app", "var", "const", "int", "store":
+			case "+", "-", "*":
+				// arithmetic over bound variables defeats syntactic matching
+				if t.bound {
+					ok = false
+				}
+			default:
+				ok = false
+			}
+			for _, a := range t.args {
+				rec(a)
+			}
+		}
+		rec(t)
+		return ok
+	}
+	var cands []*Term
+	seen := map[int]bool{}
+	var collect func(t *Term, underQuant bool)
+	collect = func(t *Term, underQuant bool) {
+		if seen[t.id] || !t.bound {
+			return
+		}
+		seen[t.id] = true
+		if t.op == "forall" || t.op == "exists" {
+			return // do not pick triggers from nested quantifier bodies
+		}
+		if (t.op == "select" || t.op == "app") && t.sort != "" && okPattern(t) && len(varsOf(t)) > 0 {
+			cands = append(cands, t)
+			// still descend: smaller sub-terms may be better, but we prefer the outermost selects
+			return
+		}
+		for _, a := range t.args {
+			collect(a, underQuant)
+		}
+	}
+	collect(body, false)
+	if len(cands) == 0 {
+		return nil
+	}
+	// single terms covering all vars -> each is its own pattern (alternatives)
+	var pats [][]*Term
+	for _, c := range cands {
+		if len(varsOf(c)) == len(vars) {
+			pats = append(pats, []*Term{c})
+		}
+	}
+	if len(pats) > 0 {
+		if len(pats) > 2 {
+			pats = pats[:2]
+		}
+		return pats
+	}
+	// multi-pattern: greedy cover
+	covered := map[int]bool{}
+	var multi []*Term
+	for _, c := range cands {
+		add := false
+		for v := range varsOf(c) {
+			if !covered[v] {
+				add = true
+			}
+		}
+		if add {
+			multi = append(multi, c)
+			for v := range varsOf(c) {
+				covered[v] = true
+			}
+		}
+	}
+	if len(covered) == len(vars) {
+		return [][]*Term{multi}
+	}
+	return nil
 }
